@@ -118,12 +118,22 @@ func showListing(l []os.FileInfo) string {
 	return "list " + strings.Join(items, ",")
 }
 
+// A tree deeper or larger than this cannot come from a history of at most a few hundred lines; the
+// walk stops there and marks the entry `!` (a cyclic structure would otherwise be walked for ever).
+const (
+	dumpMaxDepth = 48
+	dumpMaxItems = 100000
+)
+
 // dump walks the whole filespace through the public interface only.
 func dump(fs FS) string {
 	type item struct{ p, s string }
 	var items []item
-	var walk func(dir string) bool
-	walk = func(dir string) bool {
+	var walk func(dir string, depth int) bool
+	walk = func(dir string, depth int) bool {
+		if depth > dumpMaxDepth || len(items) > dumpMaxItems {
+			return false
+		}
 		l, err := fs.ReadDir(dir)
 		if err != nil {
 			return false
@@ -141,7 +151,7 @@ func dump(fs FS) string {
 			}
 			if isDir {
 				items = append(items, item{p, hp + "/"})
-				if !walk(p) {
+				if !walk(p, depth+1) {
 					items = append(items, item{p, hp + "!"})
 				}
 				continue
@@ -155,7 +165,7 @@ func dump(fs FS) string {
 		}
 		return true
 	}
-	if !walk("") {
+	if !walk("", 0) {
 		return "err"
 	}
 	sort.SliceStable(items, func(i, j int) bool { return items[i].p < items[j].p })
